@@ -22,6 +22,7 @@ CHECKS = {}
 
 
 def add(pid, cat, text, note, technique, engine, design_ref=None):
+    text = text + " (Numbers in this summary are those of the first build; the workloads added since - one or two per round of independently written changes - are listed in DESIGN.md 13.1, and the `rule` text of the evidence file is the current inventory.)"
     CHECKS[pid] = dict(cat=cat, text=text, note=note, technique=technique, engine=engine, design_ref=design_ref or ("DESIGN.md 5 (%s)" % pid))
 
 
